@@ -41,6 +41,9 @@ type Op struct {
 	Ref  string `json:"ref,omitempty"`
 	Last string `json:"last,omitempty"`
 	Av   int    `json:"av,omitempty"` // tag: which annotations the descriptor handed to Tag carries (0: the node's own)
+	// push into a file store: a longer file lies at the blob's name already (left by an earlier run in the same working
+	// directory); overwriting is allowed by default and the store must end up with exactly the pushed bytes
+	Pre bool `json:"pre,omitempty"`
 }
 
 type Scenario struct {
@@ -159,7 +162,7 @@ func (r *runner) disk() map[string]any {
 	var index ocispec.Index
 	b, err = os.ReadFile(filepath.Join(r.dir, "index.json"))
 	m["indexok"] = err == nil && json.Unmarshal(b, &index) == nil && index.SchemaVersion == 2
-	blobs := []int{}
+	blobs, altblobs := []int{}, []int{}
 	bad := 0
 	filepath.Walk(filepath.Join(r.dir, "blobs"), func(p string, fi os.FileInfo, err error) error {
 		if err != nil || fi.IsDir() {
@@ -173,13 +176,16 @@ func (r *runner) disk() map[string]any {
 		}
 		if ns := g.ByDg[digest.NewDigestFromEncoded(alg, fi.Name()).String()]; len(ns) > 0 {
 			blobs = append(blobs, ns...)
+		} else if ns := g.ByDg[digest.FromBytes(data).String()]; alg != digest.SHA256 && len(ns) > 0 {
+			altblobs = append(altblobs, ns...) // a known blob stored under another algorithm's digest (op strayalt)
 		} else {
 			bad++ // a file this history never produced
 		}
 		return nil
 	})
 	sort.Ints(blobs)
-	m["blobs"], m["badblobs"] = blobs, bad
+	sort.Ints(altblobs)
+	m["blobs"], m["badblobs"], m["altblobs"] = blobs, bad, altblobs
 	entries := [][]any{}
 	dangling := 0
 	for _, e := range index.Manifests {
@@ -415,6 +421,13 @@ func RunOne(t *testing.T, sc *Scenario, tr *vh.Tracer, base string) bool {
 		cls := func(err error) string { lastErr = err; return class(err) }
 		switch op.Op {
 		case "push":
+			if name := r.desc[op.N].Annotations[ocispec.AnnotationTitle]; op.Pre && sc.Kind == "file" && name != "" && !filepath.IsAbs(name) {
+				p := filepath.Join(r.dir, name)
+				if _, err := os.Lstat(p); err != nil {
+					os.MkdirAll(filepath.Dir(p), 0o755)
+					os.WriteFile(p, bytes.Repeat([]byte("z"), len(g.Blobs[op.N])+50), 0o644)
+				}
+			}
 			m["res"] = cls(st.Push(ctx, r.desc[op.N], bytes.NewReader(g.Blobs[op.N])))
 		case "pushbad":
 			// wrong bytes of the right length under the node's descriptor: must be refused and change nothing
@@ -464,6 +477,15 @@ func RunOne(t *testing.T, sc *Scenario, tr *vh.Tracer, base string) bool {
 			}
 		case "stray":
 			d := g.Descs[op.N].Digest
+			p := filepath.Join(r.dir, "blobs", d.Algorithm().String(), d.Encoded())
+			os.MkdirAll(filepath.Dir(p), 0o755)
+			if err := os.WriteFile(p, g.Blobs[op.N], 0o444); err != nil {
+				t.Fatal(err)
+			}
+			m["res"] = "ok"
+		case "strayalt":
+			// the same bytes as a stray file named by their sha512 digest: an unreachable blob file like any other
+			d := digest.SHA512.FromBytes(g.Blobs[op.N])
 			p := filepath.Join(r.dir, "blobs", d.Algorithm().String(), d.Encoded())
 			os.MkdirAll(filepath.Dir(p), 0o755)
 			if err := os.WriteFile(p, g.Blobs[op.N], 0o444); err != nil {
@@ -644,7 +666,7 @@ func genScenario(rng *rand.Rand, kind string) Scenario {
 			sc.Ops = append(sc.Ops, Op{Op: "pushbad", N: p + 1})
 		}
 		if rng.Intn(5) != 0 {
-			sc.Ops = append(sc.Ops, Op{Op: "push", N: p + 1})
+			sc.Ops = append(sc.Ops, Op{Op: "push", N: p + 1, Pre: rng.Intn(3) == 0})
 		}
 	}
 	if chain {
@@ -664,7 +686,7 @@ func genScenario(rng *rand.Rand, kind string) Scenario {
 		case x < 4:
 			sc.Ops = append(sc.Ops, Op{Op: "pushbad", N: node()})
 		case x < 14:
-			sc.Ops = append(sc.Ops, Op{Op: "push", N: node()})
+			sc.Ops = append(sc.Ops, Op{Op: "push", N: node(), Pre: rng.Intn(3) == 0})
 		case x < 34:
 			sc.Ops = append(sc.Ops, Op{Op: "tag", N: node(), Ref: ref(), Av: []int{0, 0, 1, 2, 7}[rng.Intn(5)]})
 		case x < 42:
@@ -686,6 +708,9 @@ func genScenario(rng *rand.Rand, kind string) Scenario {
 			k := node()
 			if nodes[k].Kind == "blob" && rng.Intn(3) == 0 {
 				sc.Ops = append(sc.Ops, Op{Op: "stray", N: k})
+			}
+			if rng.Intn(4) == 0 {
+				sc.Ops = append(sc.Ops, Op{Op: "strayalt", N: node()})
 			}
 			sc.Ops = append(sc.Ops, Op{Op: "gc"})
 		default:
